@@ -85,17 +85,30 @@ def effective_trip(cfg) -> set:
 
 def make_breaker(cfg, clock: VClock):
     """-> breaker, or the string 'ValueError'"""
+    trip_on = None if cfg["trip"] is None else {KLASS[k] for k in cfg["trip"]}
+    class_thresholds = {KLASS[k]: v for k, v in cfg["cls"].items()}
+    before = (None if trip_on is None else set(trip_on), dict(class_thresholds))
     try:
-        return CircuitBreaker(
+        b = CircuitBreaker(
             failure_threshold=cfg["ft"],
             window_s=cfg["w"] * TICK,
             recovery_timeout_s=cfg["r"] * TICK,
-            trip_on=None if cfg["trip"] is None else {KLASS[k] for k in cfg["trip"]},
-            class_thresholds={KLASS[k]: v for k, v in cfg["cls"].items()},
+            trip_on=trip_on,
+            class_thresholds=class_thresholds,
             clock=clock.read,
         )
     except ValueError:
         return "ValueError"
+    # the caller's containers belong to the caller: the constructor must neither change them (a second
+    # breaker built from the same objects must see what the caller wrote) nor keep them (the caller may reuse them)
+    if (None if trip_on is None else set(trip_on), dict(class_thresholds)) != before:
+        return "MutatedArguments"
+    if trip_on is not None:
+        trip_on.clear()
+        trip_on.update(KLASS.values())
+    class_thresholds.clear()
+    class_thresholds.update({k: 1 for k in KLASS.values()})
+    return b
 
 
 _STATE_NAMES = {CircuitState.CLOSED: "closed", CircuitState.OPEN: "open",
@@ -226,6 +239,9 @@ def run_python(case, stats: Stats | None = None):
         if stats:
             stats.ctor["ValueError"] += 1
         return reqs, ["err ValueError"], False
+    if br == "MutatedArguments":
+        return reqs, ["python-raised MutatedArguments: the constructor changed the caller's trip_on / "
+                      "class_thresholds containers"], False
     if stats:
         stats.ctor["ok"] += 1
     exp = ["ok"]
